@@ -1253,7 +1253,10 @@ def check_bspline(rep, tier):
                     nint = N - K
                     ts = [t0 - 3 * dt, t0 - dt / 2, t0, t0 + dt / 3, t0 + nint * dt - dt / 4, t0 + nint * dt, t0 + nint * dt + dt / 7, t0 + (nint + 5) * dt]
                     ts += [t0 + j * dt for j in range(1, nint)] + [t0 + j * dt + dt / 2 for j in range(0, nint)]
-                    for t in sorted(set(ts)):
+                    ts = sorted(set(ts))
+                    if K == 3:
+                        ts += [t0 + Fraction(10) ** 30 * dt, t0 - Fraction(10) ** 30 * dt, float("inf"), float("-inf")]      # far outside: (t - t0) / dt exceeds every integer type
+                    for t in ts:
                         for outs in ((True, True), (False, False), (True, False), (False, True)):
                             if outs[0] != outs[1] and not (K == 3 and N == K + 4):
                                 continue
@@ -1269,7 +1272,7 @@ def check_bspline(rep, tier):
                             if not ok:
                                 continue
                             r, vel, acc = res
-                            s_ = (t - t0) / dt
+                            s_ = (t - t0) / dt if not isinstance(t, float) else (Fraction(10) ** 40 if t > 0 else -Fraction(10) ** 40)
                             if s_ < 0:
                                 i, u = 0, Fraction(0)
                             elif s_ >= nint:
